@@ -25,10 +25,11 @@ const (
 	FamKeyed
 	FamDedup
 	FamBigMembers
+	FamAtoms
 	famCount
 )
 
-var famNames = [...]string{"mixed", "dense-arrays", "dense-objects", "zeros", "strings", "numbers", "deep", "wide", "huge-string", "keyed", "dedup-stress", "big-members"}
+var famNames = [...]string{"mixed", "dense-arrays", "dense-objects", "zeros", "strings", "numbers", "deep", "wide", "huge-string", "keyed", "dedup-stress", "big-members", "atoms"}
 
 // siteKind classifies recorded token positions (targets for defects / faults).
 type siteKind uint8
@@ -475,6 +476,16 @@ func GenDoc(c *Chooser, spec DocSpec) Doc {
 			}
 		}
 		g.b.WriteByte('}')
+	case FamAtoms:
+		// entries that carry no value word: a tape (and a serialized tag section) much longer than its value section
+		g.b.WriteByte('[')
+		for i := 0; !g.full(); i++ {
+			if i > 0 {
+				g.b.WriteByte(',')
+			}
+			g.b.WriteString([]string{"true", "false", "null", "null", "true"}[c.Intn("atom", 5)])
+		}
+		g.b.WriteByte(']')
 	case FamZeros:
 		g.b.WriteByte('[')
 		for i := 0; !g.full(); i++ {
